@@ -511,3 +511,147 @@ Theorem C01_superset_round_semantics : forall P (R : Z -> list Z) (pay : Z -> Z 
      Some (result final (map (fun s => pay s me) final))).
 Proof. exact superset_round. Qed.
 Print Assumptions C01_superset_round_semantics.
+
+(* ==== EVERY SCHEDULE: the round abstraction discharged in an interleaving semantics with wildcard receives ==========================
+   MPI/SemAny.v: Sem.v's step relation + the rule "Recv ANY t takes the head of ANY non-empty channel (src, r, t)" (FIFO per
+   (source, destination, tag)); MPI/SemRounds.v: every schedule of a level-structured protocol; C01/NarySched.v, BinarySched.v:
+   the instances for the co-simulated programs nary_core / binary_core; C01/BackToBack.v, BinaryTwice.v: two calls in sequence.
+   (No `Import` of these modules here: MPI.Sem.run would shadow NotifyProgProofs.run for theorems appended later.) *)
+From ScV Require MPI.Sem MPI.SemAny MPI.SemRounds C01.NarySched C01.BinarySched C01.BackToBack C01.BinaryTwice.
+
+(* every step of the named-source semantics (Sem.v) is a step of the semantics with wildcards *)
+Theorem C01_semany_embedding : forall s r s', Sem.step s r s' -> SemAny.step_a s r s'.
+Proof. exact SemAny.step_in_step_a. Qed.
+Print Assumptions C01_semany_embedding.
+
+(* the executable scheduler (a choice = rank that moves, source matched by a wildcard) is sound for the step relation ... *)
+Theorem C01_semany_exec_sound : forall (l : list SemAny.choice) s s', SemAny.exec l s = Some s' -> SemAny.run_a (length l) s s'.
+Proof. exact SemAny.exec_sound. Qed.
+Print Assumptions C01_semany_exec_sound.
+(* ... and complete: every step is executed by some choice *)
+Theorem C01_semany_exec_complete : forall s r s', SemAny.step_a s r s' -> exists src, SemAny.exec_step s (r, src) = Some s'.
+Proof. exact SemAny.exec_step_complete. Qed.
+Print Assumptions C01_semany_exec_complete.
+
+(* EVERY SCHEDULE OF A LEVEL-STRUCTURED PROTOCOL (generic; the two notify recursions and the two binary calls in sequence are
+   instances).  NL levels in sequence; at level l rank r sends `sends r l` (at most one message per destination), then receives one
+   message from every rank of `srcs r l` by wildcard or named receives (`named`); q sends to r iff r expects q (matching), the
+   contents are `wire l q r`; levels that share a tag: the later one has no new source and the earlier one uses a wildcard only
+   for its first receive.  If each program, fed with the replies of ANY arrival order of its levels' messages, issues the
+   script's actions and returns out r (round property), then in the interleaving semantics with wildcard receives: no reachable
+   state is stuck, a run has at most total_len steps and is final exactly after total_len steps, and every final state has all
+   results `out r` and empty channels. *)
+Theorem C01_rounds_every_schedule : forall (NL : nat) (tagof : nat -> Z) (sends : Z -> nat -> list (Z * payload)) (srcs : Z -> nat -> list Z)
+    (wire : nat -> Z -> Z -> payload) (named : Z -> nat -> nat -> bool) (P : Z -> prog) (out : Z -> payload) (rks : list Z),
+  NoDup rks ->
+  (forall r l, ~ In r rks -> sends r l = [] /\ srcs r l = []) ->
+  (forall r p p', (p < p')%nat -> (p' < NL)%nat -> tagof p = tagof p' ->
+     (forall q, In q (srcs r p') -> In q (srcs r p)) /\ (forall i, named r p i = false -> i = 0%nat)) ->
+  (forall r l, (l < NL)%nat -> NoDup (map fst (sends r l))) ->
+  (forall r l, (l < NL)%nat -> NoDup (srcs r l)) ->
+  (forall r l q, (l < NL)%nat -> In q (srcs r l) -> 0 <= q) ->
+  (forall q l d m, (l < NL)%nat -> In (d, m) (sends q l) -> In q (srcs d l) /\ m = wire l q d) ->
+  (forall r l q, (l < NL)%nat -> In q (srcs r l) -> In (r, wire l q r) (sends q l)) ->
+  (forall r ord, SemRounds.valid NL srcs r ord ->
+     SemRounds.feed (map (SemRounds.reply_of wire r) (SemRounds.script NL sends named r ord)) (P r) =
+     (map (SemRounds.act_of tagof) (SemRounds.script NL sends named r ord), Some (out r))) ->
+  forall n s, SemAny.run_a n (SemRounds.init P) s ->
+    ~ SemAny.stuck s /\ (n <= SemRounds.total_len NL sends srcs rks)%nat /\
+    (Sem.final s <-> n = SemRounds.total_len NL sends srcs rks) /\
+    (Sem.final s -> (forall r, Sem.pr s r = Ret (out r)) /\ (forall a b t, Sem.ch s a b t = [])).
+Proof. exact SemRounds.all_schedules. Qed.
+Print Assumptions C01_rounds_every_schedule.
+(* the reply-feeding function of SemRounds is NotifyProgProofs.run *)
+Theorem C01_rounds_feed_is_run : forall p rs, SemRounds.feed rs p = run rs p.
+Proof. exact NarySched.feed_run. Qed.
+Print Assumptions C01_rounds_feed_is_run.
+
+(* N-ARY RECURSION, ONE CALL, EVERY SCHEDULE.  System nary_sys: rank r < G runs nary_core G r ntop nint nbot (R r) None sz0 (the
+   program notify_prog gives for typ = 2 without payload), channels empty.  For every communicator size 1 < G <= 2^29, all widths
+   >= 2 inside the int range and every family of ascending receiver lists: in EVERY run of the interleaving semantics with
+   wildcard receives (i) no state is stuck (no deadlock); (ii) a run has at most nary_steps G R (nary_params ..) steps - the
+   number of sends and receives of all ranks at all levels, computable - and a state is final exactly if it was reached by that
+   many steps, so every maximal run is finite and ends in a final state; (iii) in every final state every rank has returned the
+   transposed list and NO message is left in any channel. *)
+Theorem C01_nary_every_schedule : forall G (R : Z -> list Z) ntop nint nbot,
+  0 < G <= BIG -> G <> 1 ->
+  (forall f, 0 <= f < G -> ssorted (fun x => x) (R f) /\ forall t, In t (R f) -> 0 <= t < G) ->
+  2 <= ntop -> 2 <= nint -> 2 <= nbot -> nbot <= BIG -> nbot * ntop <= BIG -> G * nint <= BIG ->
+  forall sz0,
+  exists depth prod, nary_depth 64 G nbot ntop nint = Some (depth, prod) /\
+  forall n s, SemAny.run_a n (NarySched.nary_sys G R ntop nint nbot sz0) s ->
+    ~ SemAny.stuck s /\
+    (n <= NarySched.nary_steps G R (NarySched.nary_params G ntop nint nbot depth))%nat /\
+    (Sem.final s <-> n = NarySched.nary_steps G R (NarySched.nary_params G ntop nint nbot depth)) /\
+    (Sem.final s -> (forall r, 0 <= r < G -> Sem.pr s r = Ret (result (transpose G R r) [])) /\
+                    (forall a b t, Sem.ch s a b t = [])).
+Proof. exact NarySched.nary_every_schedule. Qed.
+Print Assumptions C01_nary_every_schedule.
+
+(* the bound in closed form: per rank at most 3 * (sum of the widths of the levels) steps *)
+Theorem C01_nary_steps_le : forall G (R : Z -> list Z) ntop nint nbot,
+  0 < G <= BIG -> G <> 1 ->
+  (forall f, 0 <= f < G -> ssorted (fun x => x) (R f) /\ forall t, In t (R f) -> 0 <= t < G) ->
+  2 <= ntop -> 2 <= nint -> 2 <= nbot -> nbot <= BIG -> nbot * ntop <= BIG -> G * nint <= BIG ->
+  forall depth prod, nary_depth 64 G nbot ntop nint = Some (depth, prod) ->
+  (NarySched.nary_steps G R (NarySched.nary_params G ntop nint nbot depth) <=
+   Z.to_nat G * list_sum (map (fun D => 3 * Z.to_nat D) (map snd (nary_ls depth ntop nint nbot))))%nat.
+Proof. exact NarySched.nary_steps_le. Qed.
+Print Assumptions C01_nary_steps_le.
+
+(* BINARY RECURSION, ONE CALL, EVERY SCHEDULE, every 1 <= G <= 2^29 (powers of two or not): the same three statements for
+   binary_sys (rank r < G runs binary_core G r (R r) None ..); the first receive of a level is a wildcard, the second names its source *)
+Theorem C01_binary_every_schedule : forall G (R : Z -> list Z),
+  0 < G <= BIG ->
+  (forall f, 0 <= f < G -> ssorted (fun x => x) (R f) /\ forall t, In t (R f) -> 0 <= t < G) ->
+  exists n : nat, binary_pow2length G = 2 ^ Z.of_nat n /\
+  forall k s, SemAny.run_a k (BinarySched.binary_sys G R) s ->
+    ~ SemAny.stuck s /\
+    (k <= BinarySched.binary_steps G R n)%nat /\
+    (Sem.final s <-> k = BinarySched.binary_steps G R n) /\
+    (Sem.final s -> (forall r, 0 <= r < G -> Sem.pr s r = Ret (result (transpose G R r) [])) /\
+                    (forall a b t, Sem.ch s a b t = [])).
+Proof. exact BinarySched.binary_every_schedule. Qed.
+Print Assumptions C01_binary_every_schedule.
+
+(* at most 3 steps (one send, two receives) per rank and level *)
+Theorem C01_binary_steps_le : forall G (R : Z -> list Z) (n : nat), (BinarySched.binary_steps G R n <= Z.to_nat G * (3 * n))%nat.
+Proof. exact BinarySched.binary_steps_le. Qed.
+Print Assumptions C01_binary_steps_le.
+
+(* BACK-TO-BACK CALLS OF THE N-ARY RECURSION ARE REFUTED (finding back-to-back:nary): 3 ranks, widths (2, 2, 2), every rank runs
+   the n-ary program twice in sequence with the same tags; call 1: rank 2 lists rank 1, call 2: rank 0 lists rank 1.  There is a
+   legal schedule (20 steps, executed by SemAny.exec) that ends in a final state in which rank 1 has returned "one sender: rank 0"
+   for call 1 and "no sender" for call 2 - correct is "one sender: rank 2" and "one sender: rank 0": rank 1, still in call 1,
+   matched the deepest-level message of call 2 of the faster rank 0 with a wildcard of call 1. *)
+Theorem C01_nary_back_to_back_refuted :
+  exists (sched : list SemAny.choice) (s' : Sem.gs),
+    SemAny.exec sched (BackToBack.nary_sys2 3 2 2 2 BackToBack.b2b_R1 BackToBack.b2b_R2) = Some s' /\
+    SemAny.run_a (length sched) (BackToBack.nary_sys2 3 2 2 2 BackToBack.b2b_R1 BackToBack.b2b_R2) s' /\
+    Sem.final s' /\
+    Sem.pr s' 1 = Ret ([1; 0] ++ [0]) /\
+    result (transpose 3 BackToBack.b2b_R1 1) [] ++ result (transpose 3 BackToBack.b2b_R2 1) [] = [1; 2] ++ [1; 0].
+Proof. exact BackToBack.nary_back_to_back_refuted. Qed.
+Print Assumptions C01_nary_back_to_back_refuted.
+
+(* BACK-TO-BACK CALLS OF THE BINARY RECURSION ARE CORRECT UNDER EVERY SCHEDULE, every 1 <= G <= 2^29, any two patterns R1, R2: every
+   rank runs binary_core twice in sequence with the same tags (binary_sys2); no reachable state is stuck, a run has at most
+   twice_steps <= 6 n G steps and is final exactly after twice_steps steps, every final state has the transposed list of R1 followed
+   by that of R2 on every rank and empty channels.  (The second receive of a level names its source; when the wildcard of a
+   level is posted nothing of the level has been received, so the head of either source's FIFO channel is of the current call.) *)
+Theorem C01_binary_back_to_back : forall G (R1 R2 : Z -> list Z),
+  0 < G <= BIG ->
+  (forall f, 0 <= f < G -> ssorted (fun x => x) (R1 f) /\ forall t, In t (R1 f) -> 0 <= t < G) ->
+  (forall f, 0 <= f < G -> ssorted (fun x => x) (R2 f) /\ forall t, In t (R2 f) -> 0 <= t < G) ->
+  exists n : nat, binary_pow2length G = 2 ^ Z.of_nat n /\
+  forall k s, SemAny.run_a k (BackToBack.binary_sys2 G R1 R2) s ->
+    ~ SemAny.stuck s /\
+    (k <= BinaryTwice.twice_steps G R1 R2 n)%nat /\
+    (Sem.final s <-> k = BinaryTwice.twice_steps G R1 R2 n) /\
+    (Sem.final s -> (forall r, 0 <= r < G -> Sem.pr s r = Ret (result (transpose G R1 r) [] ++ result (transpose G R2 r) [])) /\
+                    (forall a b t, Sem.ch s a b t = [])).
+Proof. exact BinaryTwice.binary_back_to_back. Qed.
+Print Assumptions C01_binary_back_to_back.
+Theorem C01_binary_twice_steps_le : forall G (R1 R2 : Z -> list Z) (n : nat), (BinaryTwice.twice_steps G R1 R2 n <= Z.to_nat G * (3 * (n + n)))%nat.
+Proof. exact BinaryTwice.twice_steps_le. Qed.
+Print Assumptions C01_binary_twice_steps_le.
